@@ -20,7 +20,7 @@ from .snap import snapshot, diff
 
 # ------------------------------------------------------------------ strategies
 APPEND_KINDS = ['rows', 'rows', 'otherdt', 'list', 'scalar', 'zero', 'layout', 'badshape', 'badrank', 'unconv', '0d',
-                'manyrows', 'zero-badshape', 'zero-badrank', 'emptylist', 'npscalar', 'tuple']
+                'manyrows', 'zero-badshape', 'zero-badrank', 'emptylist', 'npscalar', 'tuple', 'darr', 'darr', 'darr-self']
 INVALID_KINDS = ('badshape', 'badrank', 'unconv', '0d', 'zero-badshape', 'zero-badrank', 'emptylist')
 TRUNC_TOKENS = [0, 1, 2, -1, -2, 'half', '-len', 'len', 'len+3', 'len-1', 2.0, 'a', None, 9, 'np:int8', 'np:uint8', 'np:int16', 'np:int64',
                 'f:0.13', 'f:0.37', 'f:0.58', 'f:0.8', 'f:0.97']
@@ -28,13 +28,16 @@ TRUNC_TOKENS = [0, 1, 2, -1, -2, 'half', '-len', 'len', 'len+3', 'len-1', 2.0, '
 
 @st.composite
 def st_append_arg(draw, valid_only=False):
-    kinds = [k for k in APPEND_KINDS if not (valid_only and k in INVALID_KINDS)]
+    kinds = [k for k in APPEND_KINDS if not (valid_only and (k in INVALID_KINDS or k.startswith('darr')))]
     k = draw(st.sampled_from(kinds))
     arg = {'k': k, 'n': draw(st.integers(1, 3)), 'seed': draw(st.integers(0, 2 ** 31))}
     if k == 'manyrows':      # lengths that gain decimal digits, cross the 4096-byte stdio buffer and the 64 KB mark
         arg['n'] = draw(st.sampled_from([7, 12, 40, 100, 600, 9000]))
     if k == 'otherdt':
         arg['dt'] = draw(gens.st_dt())
+    if k == 'darr':          # the operand is itself a Darr array on disk (0..3 rows, of the array's type or another one)
+        arg['n'] = draw(st.sampled_from([0, 0, 1, 2, 3]))
+        arg['dt'] = draw(st.one_of(st.none(), gens.st_dt()))
     if k == 'layout':
         arg['layout'] = draw(st.sampled_from(gens.LAYOUTS))
     return arg
@@ -61,7 +64,7 @@ def st_array_op(draw, shape_rank, extra=()):
     if o == 'reopen':
         return {'o': 'reopen', 'm': draw(st.sampled_from(['r', 'r+', 'r+']))}
     if o == 'meta':
-        return {'o': 'meta', 'a': draw(st.sampled_from(['set', 'set', 'del', 'clear'])), 'k': draw(st.sampled_from(['a', 'b']))}
+        return {'o': 'meta', 'a': draw(st.sampled_from(['set', 'set', 'del', 'clear', 'refused'])), 'k': draw(st.sampled_from(['a', 'b']))}
     if o == 'overwrite':
         return {'o': 'overwrite', 'start': draw(st_start()), 'over': draw(st.sampled_from(['same', 'same', 'ragged']))}
     if o == 'copy':
@@ -140,7 +143,8 @@ def build_append_operand(arg, m):
     if k == 'otherdt':
         odt = dt_of(arg['dt'])
         mode = gens.cast_mode(arg['dt']['t'], t)
-        return gens.build_array(odt, (n,) + tail, {'m': mode, 's': seed})
+        x = gens.build_array(odt, (n,) + tail, {'m': mode, 's': seed})
+        return gens.apply_layout(x, arg['layout']) if arg.get('layout') else x
     if k == 'list':
         x = gens.build_array(m.dtype, (n,) + tail, {'m': 'safe', 's': seed})
         return np.ascontiguousarray(x).astype(m.dtype.newbyteorder('=')).tolist()
@@ -171,6 +175,25 @@ def model_append(m, x):
     # concatenate on bytes so the byte order cannot drift
     buf = m.tobytes() + np.ascontiguousarray(arr).tobytes()
     return np.frombuffer(buf, dtype=m.dtype).reshape((m.shape[0] + arr.shape[0],) + m.shape[1:]).copy()
+
+
+def big_operand_specs():
+    """One append / iterappend operand above 1, 16 and 64 MiB: of the array's own type and of another one, in C, Fortran,
+    transposed, strided and reversed memory layout (a conversion done block-wise or on a flattened view has to keep the order)."""
+    for (t, bo, tail), (ot, obo) in ((('int16', '<', [3]), ('float64', '<')), (('float32', '>', [2, 2]), ('int32', '<')), (('uint8', '<', []), ('int64', '>'))):
+        rowitems = int(np.prod(tail)) if tail else 1
+        for mib in (1, 16, 64):
+            n = (mib * 2 ** 20) // (rowitems * np.dtype(ot).itemsize) + 7
+            for layout in ('C', 'F', 'T', 'strided', 'neg'):
+                if layout in ('F', 'T') and not tail:
+                    continue
+                if mib == 64 and layout not in ('F', 'neg'):
+                    continue
+                start = {'dt': {'t': t, 'bo': bo}, 'shape': [2] + tail, 'seed': 3, 'how': 'asarray', 'mode': 'r+', 'meta': False}
+                big = {'k': 'otherdt', 'n': n, 'seed': 5, 'dt': {'t': ot, 'bo': obo}, 'layout': layout}
+                own = {'k': 'layout', 'n': n // 2, 'seed': 6, 'layout': layout}
+                yield {'start': start, 'big': f'{mib}MiB', 'ops': [{'o': 'append', 'arg': big}, {'o': 'trunc', 'i': 3, 'by': 'obj'},
+                                                                    {'o': 'iterappend', 'chunks': [{'k': 'rows', 'n': 1, 'seed': 7}, own, big], 'gen': True}]}
 
 
 def trunc_grid_specs(nmax=130):
@@ -357,6 +380,43 @@ class ArrayRun:
     def mode(self):
         return self.a.accessmode
 
+    def _append_darr(self, arg, empty):
+        """append() whose operand is a Darr array: another array on disk (0..3 rows, own or other element type), or the array
+        itself.  An operand without rows is a zero-row append for a 1-D array; for an N-D array it leaves the state as it is whether
+        or not the call is accepted (NumPy's conversion of a sequence without items has shape (0,), so refusing it there is
+        legitimate); one with rows is appended."""
+        import darr
+        a, m = self.a, self.m
+        tag = f"append:{arg['k']}:{empty}"
+        self.kinds.append('append')
+        self.out.cls('append-operand-is-a-darr-array' + (':itself' if arg['k'] == 'darr-self' else ''))
+        if arg['k'] == 'darr-self':
+            opnd, rows = a, m
+        else:
+            odt = dt_of(arg['dt']) if arg.get('dt') else m.dtype
+            mode_ = gens.cast_mode(arg['dt']['t'], m.dtype.name) if arg.get('dt') else 'raw'
+            rows = gens.build_array(odt, (arg['n'],) + m.shape[1:], {'m': mode_, 's': arg['seed']})
+            self._nopnd = getattr(self, '_nopnd', 0) + 1
+            opnd = darr.asarray(os.path.join(os.path.dirname(self.path), f'operand{self._nopnd}.darr'), rows, chunklen=2)
+        if self.mode == 'r':
+            self.out.cls('ro-mutator')
+            return self.expect_reject(tag + ':ro', lambda: a.append(opnd))
+        if rows.shape[0] == 0:
+            self.out.cls('zero-row-append')
+            if m.ndim == 1:      # a sequence without items converts to shape (0,): a zero-row append for a 1-D array
+                if not self.expect_ok(tag + ':zero-rows', lambda: a.append(opnd)):
+                    return False
+                return self.observe(tag + ':zero-rows')
+            try:
+                a.append(opnd)
+            except Exception:
+                pass
+            return self.observe(tag + ':zero-rows')
+        if not self.expect_ok(tag, lambda: a.append(opnd)):
+            return False
+        self.m = model_append(m, np.ascontiguousarray(rows))
+        return self.observe(tag)
+
     # -- observation
     def observe(self, tag):
         out, a, m = self.out, self.a, self.m
@@ -479,6 +539,10 @@ class ArrayRun:
             arg = op['arg']
             if getattr(self, 'in_ctx', False) and arg['k'] in ('scalar', 'npscalar') and m.ndim > 1:
                 arg = dict(arg, k='rows')     # inside a context only valid appends are issued (a failed one closes the shared descriptor)
+            if arg['k'] in ('darr', 'darr-self'):
+                if getattr(self, 'in_ctx', False):
+                    return True
+                return self._append_darr(arg, empty)
             x = build_append_operand(arg, m)
             tag = f"append:{arg['k']}:{empty}"
             try:
@@ -835,6 +899,11 @@ class ArrayRun:
                 return True
             k = op['k']
             act = op['a']
+            if act == 'refused':
+                # an update that has to be refused (a value JSON cannot hold): metadata, metadata.json and README stay as they are
+                self.out.cls('meta-update-refused', 'rejected-call')
+                bad = {1, 2} if k == 'a' else object()
+                return self.expect_reject('meta:refused', (lambda: a.metadata.update({'fine': 1, k: bad})) if k == 'a' else (lambda: a.metadata.__setitem__(k, bad)))
             if act == 'set':
                 if not self.meta:
                     self.out.cls('meta-created')
